@@ -1095,13 +1095,13 @@ class SubElementProperty(_ElementBase):
 
     def get_py_value_from_node(self, instance: Any, node: xml_utils.LxmlElement) -> Any:  # noqa: ARG002
         """Read value from node."""
-        value = self._default_py_value
         try:
             sub_node = self._get_element_by_child_name(node, self._sub_element_name, create_missing_nodes=False)
             value_class = self.value_class.value_class_from_node(sub_node)
             value = value_class.from_node(sub_node)
         except ElementNotFoundError:
-            pass
+            # every instance gets its own copy of the default value (like init_instance_data does)
+            value = copy.deepcopy(self._default_py_value)
         return value
 
     def update_xml_value(self, instance: Any, node: xml_utils.LxmlElement):
